@@ -5,7 +5,8 @@ PATCH=$(realpath "$1"); shift
 cd /repo || exit 2
 if ! git diff --quiet; then echo "/repo has uncommitted changes"; exit 2; fi
 if ! git apply "$PATCH"; then echo "patch does not apply"; exit 2; fi
-trap 'git -C /repo checkout -- . ; git -C /repo clean -fdq -- rodbus ffi integration 2>/dev/null' EXIT
+# on exit: revert, and rebuild the harness so that no binary built from the patched tree is left
+trap 'git -C /repo checkout -- . ; git -C /repo clean -fdq -- rodbus ffi integration 2>/dev/null; /verif/check --build >/dev/null 2>&1' EXIT
 cd /verif
 for id in "$@"; do
     out=$(VERIF_EVIDENCE_DIR=/tmp/verif-mutant-evidence VERIF_SCALE=${VERIF_SCALE:-1} ./check "$id" --tier quick 2>&1)
